@@ -118,6 +118,45 @@ RechunkSpecVerdict(c) ==
      ELSE IF c.balance = 1 /\ \E a \in 1..r : Len(c.out[a]) > Len(target(a)) THEN "balanced-rechunk-has-more-blocks-than-requested"
      ELSE "ok"
 
+(***************************************************************************)
+(* Unknown chunk sizes (C28).  c: expect (denotation), got (computed value  *)
+(* or "raised"), adv (advertised layout when the value was computed),       *)
+(* resolved (1 iff compute_chunk_sizes() was applied to the producer and    *)
+(* nothing data-dependent happened since).                                 *)
+(***************************************************************************)
+UnknownVerdict(c) ==
+  IF c.got.kind = "raised" THEN "ok-refused"
+  ELSE IF ~SameValue(c.got, c.expect) THEN "wrong-value-or-shape-with-unknown-chunk-sizes"
+  ELSE IF ~SameKind(c.got, c.expect) THEN "wrong-dtype-kind-with-unknown-chunk-sizes"
+  ELSE IF c.resolved = 1 /\ \E a \in 1..Len(c.adv.chunks) : \E j \in 1..Len(c.adv.chunks[a]) : IsUnk(c.adv.chunks[a][j])
+       THEN "chunk-sizes-still-unknown-after-compute_chunk_sizes"
+  ELSE "ok"
+
+(***************************************************************************)
+(* Entry points (C05).  c.adv: [name, chunks, dtype] of x; c.expect: the    *)
+(* denotation; c.entries: sequence of [entry, val, keeps (0/1), name,       *)
+(* chunks, dtype]: the value obtained through that entry point and, for the *)
+(* entry points that return a collection which must keep x's identity       *)
+(* (x.persist, dask.persist, dask.optimize), its name / chunks / dtype.     *)
+(* The first entry is x.compute(): if it raises nothing is claimed.         *)
+(***************************************************************************)
+EntryVerdict(c) ==
+  LET E == c.entries
+      first(S) == CHOOSE j \in S : \A q \in S : j <= q
+      raised == {j \in 1..Len(E) : E[j].val.kind = "raised"}
+      wrong == {j \in 1..Len(E) \ raised : ~SameValue(E[j].val, E[1].val) \/ ~SameKind(E[j].val, E[1].val)}
+      renamed == {j \in 1..Len(E) \ raised : E[j].keeps = 1 /\ E[j].name # c.adv.name}
+      rechunked == {j \in 1..Len(E) \ raised : E[j].keeps = 1 /\ E[j].chunks # c.adv.chunks}
+      retyped == {j \in 1..Len(E) \ raised : E[j].keeps = 1 /\ E[j].dtype # c.adv.dtype}
+  IN IF E = <<>> \/ 1 \in raised THEN "ok-x.compute-raises"
+     ELSE IF wrong # {} THEN "entry-point-value-differs:" \o E[first(wrong)].entry
+     ELSE IF raised # {} THEN "entry-point-raises:" \o E[first(raised)].entry
+     ELSE IF renamed # {} THEN "entry-point-changes-name:" \o E[first(renamed)].entry
+     ELSE IF rechunked # {} THEN "entry-point-changes-chunks:" \o E[first(rechunked)].entry
+     ELSE IF retyped # {} THEN "entry-point-changes-dtype:" \o E[first(retyped)].entry
+     ELSE IF ~SameValue(E[1].val, c.expect) THEN "ok-all-entry-points-agree-but-differ-from-the-denotation"
+     ELSE "ok"
+
 \* fused task provenance: for every output block, the set of (external input, block) pairs the fused
 \* graph reads equals the set the unfused lowered graph reads
 FusionVerdict(obs) ==
